@@ -150,4 +150,3 @@ Inductive Justified_en (r : cres) (x y : cat) : Prop :=
 (* ---------- boolean versions, to state computed facts ---------- *)
 Definition unary_featb (f : feat) : bool := match f with FTer _ _ _ _ _ _ => false | _ => true end.
 Definition unary_sysb (c : cat) : bool := forallb unary_featb (feats c).
-Definition text_of (c : cat) : text := show c.
